@@ -384,3 +384,14 @@ package document
 //@   trusted
 //@   ensures result1 == nil ==> result0 === dg1Country(ref(dg1.Mrz))
 //@   assigns nothing
+
+// Import of a serialised bundle (CBOR decoding is an external, reflection-driven library: trusted boundary here; the
+// envelope checks of this function are the subject of C15, not claimed).
+//@ func UnmarshalVerifiableDoc
+//@   trusted
+//@   ensures result2 == nil ==> result0 != nil && result1 != nil && fresh(result0) && fresh(result1)
+//@   ensures result2 == nil ==> (result0.Mf.Lds1.Dg14 != nil ==> result0.Mf.Lds1.Dg14.SecInfos != nil) && (result0.Mf.CardSecurity != nil ==> result0.Mf.CardSecurity.SecurityInfos != nil && result0.Mf.CardSecurity.SD != nil)
+//@        && (result0.Mf.CardAccess != nil ==> result0.Mf.CardAccess.SecurityInfos != nil) && (result0.Mf.Lds1.Sod != nil ==> result0.Mf.Lds1.Sod.SD != nil && result0.Mf.Lds1.Sod.LdsSecurityObject != nil)
+//@   ensures "evidence-objects-are-allocated": result2 == nil && result1.ActiveAuth != nil ==> allocated(result1.ActiveAuth) && allocated(result1.ActiveAuth.Nonce) && allocated(result1.ActiveAuth.Signature)
+//@   ensures result2 != nil ==> result0 == nil && result1 == nil
+//@   assigns nothing
